@@ -201,6 +201,21 @@ def gen_dep_type(rng, ew, key_cls, depth=1, allow_combo=True):
     return bound
 
 
+def gen_applicable_type(rng, ew, key_cls, **kw):
+    """a generated declared type that is applicable to `key_cls` at the type level (as every handler of a real
+    rank is): checked with the real subclasscheck"""
+    from ovld.mro import subclasscheck
+
+    for _ in range(6):
+        t = gen_dep_type(rng, ew, key_cls, **kw)
+        try:
+            if subclasscheck(ew.w.classes[key_cls], ew.ty(t)):
+                return t
+        except Exception:
+            pass
+    return ["cls", key_cls]
+
+
 def gen_scenario(rng, steer=None):
     w = make_world(rng, nuser=rng.randint(1, 3))
     w.tables_cache = w.tables()
@@ -216,25 +231,35 @@ def gen_scenario(rng, steer=None):
         dep_seen = False
         for s in range(nslots):
             if rng.random() < (0.85 if not dep_seen else 0.3):
-                t = gen_dep_type(rng, ew, key_classes[s])
+                t = gen_applicable_type(rng, ew, key_classes[s])
                 dep_seen = dep_seen or t[0] != "cls"
             else:
                 supers = [c for c in range(w.n) if w.tables_cache["sub"][key_classes[s]][c]]
                 t = ["cls", rng.choice(supers)]
             types.append(["p", s, t])
         if not any(x[2][0] != "cls" for x in types) and i == 0:
-            types[0][2] = gen_dep_type(rng, ew, key_classes[0], allow_combo=False)
+            types[0][2] = gen_applicable_type(rng, ew, key_classes[0], allow_combo=False)
         handlers.append({"id": i, "types": types})
     if steer == "literals":
         # many single-valued int literals around the lookup-table threshold, some overlapping
         key_classes = [C_INT]
         nh = rng.choice([2, 3, 4, 5, 6])
-        ints = [0, 1, 2, 3, 4, 5]
+        ints = [0, 1, 2, 3, 4]  # pool indices of 0, 1, 2, 3 and True (== 1)
         handlers = []
+        disjoint = rng.random() < 0.5
+        avail = [0, 1, 2, 3]
+        rng.shuffle(avail)
         for i in range(nh):
             n = rng.choice([1, 1, 2, 3])
-            vs = [rng.choice(ints) for _ in range(n)]
+            if disjoint:
+                vs = [avail.pop()] if avail else []
+                if not vs:
+                    break
+            else:
+                vs = [rng.choice(ints) for _ in range(n)]
             handlers.append({"id": i, "types": [["p", 0, ["lit", vs, ["cls", C_INT]]]]})
+        if rng.random() < 0.4:
+            handlers.append({"id": len(handlers), "types": [["p", 0, ["lit", [4 if rng.random() < 0.5 else 1], ["cls", C_INT]]]]})
         nslots = 1
     calls = []
     for _ in range(rng.randint(3, 8)):
